@@ -322,6 +322,11 @@ func (d *prDriver) doFire(c *prClient) {
 
 func (d *prDriver) Run(x *sched.Exec, raw json.RawMessage) json.RawMessage {
 	d.x = x
+	x.OptDouble, x.OptParkUnl = true, true
+	fine := x.OptParkUnl && !x.LogSteps && x.ParkUnl
+	if len(x.Sched) > 0 {
+		fine = x.OptParkUnl && !x.LogSteps && x.Sched[0] == "!parkunl"
+	}
 	var sc prScenario
 	if raw != nil {
 		if err := json.Unmarshal(raw, &sc); err != nil {
@@ -343,6 +348,7 @@ func (d *prDriver) Run(x *sched.Exec, raw json.RawMessage) json.RawMessage {
 	}
 	d.cont = promise.NewPromiseContainer[int]()
 	x.Log(trace.E{"ev": "init", "proms": pl, "cur": sc.Cur})
+	x.Log(trace.E{"ev": "cfg", "fine": fine})
 	if sc.Cur != 0 {
 		// before any client exists: not a step of the execution (hooks pass through)
 		x.Policy = func(*sched.Actor, string, string, any) bool { return false }
